@@ -2870,7 +2870,20 @@ fn equiv_case(case_seed: u64, rep: &mut Report) {
             (Ok(qa), Ok(db)) => {
                 rep.count("both_ok", 1);
                 if let Err(why) = results_agree(qa, db, rep) {
-                    let sig = if select_differs_only_on_null_rows(&op, qa, db) {
+                    // with LIMIT/OFFSET the window shifts; classify on the same SELECT without them
+                    let unwindowed = match &op {
+                        Op::Select { table, proj, cond, order, limit, offset } if limit.is_some() || offset.is_some() => {
+                            let op2 = Op::Select { table: table.clone(), proj: proj.clone(), cond: cond.clone(), order: order.clone(), limit: None, offset: None };
+                            let qa2 = guard(|| a.execute_parsed(&op2.text(&Style::plain())));
+                            let db2 = guard(|| direct(&op2, b.relational(), b.graph(), b.vector()));
+                            match (qa2, db2) {
+                                (Ok(Ok(x)), Ok(Ok(y))) => select_differs_only_on_null_rows(&op2, &x, &y),
+                                _ => false,
+                            }
+                        }
+                        _ => false,
+                    };
+                    let sig = if unwindowed || select_differs_only_on_null_rows(&op, qa, db) {
                         "equivalence:select-differs-on-rows-with-null-in-compared-column".to_string()
                     } else {
                         format!("equivalence:result-differs:{}", fam)
